@@ -234,6 +234,11 @@ def run(chk):
     ctxs = ['.4byte {t}\n', '.byte 1, {t}\n', 'KQ = {t}\n.byte 1\n', '.align {t}\n.byte 1\n', '.org {t}\n.byte 1\n', '.fill 1, {t}\n', '.fill {t}, 1\n',
             '.zero {t}\n', 'ld8 {t}\n', '#if {t}\n.byte 1\n#endif\n.byte 2\n']
     jobs = [(c.format(t=tx), tx) for tx, _, _ in bad for c in ctxs if tx.strip()]
+    # the same malformed token strings written without blanks, and digit strings that only LOOK like numbers of some other language
+    # (a leading plus sign, digit group separators): there is no unary plus and there are no separators
+    compact_bad = [render(k, compact=True) for _, _, k in bad[:60 if quick else 400]]
+    lookalike = ['+5', '+0', '1_0', '1_000', '0_1', '+0x10', '+$10', '5_']
+    jobs += [(c.format(t=tx), tx) for tx in compact_bad + lookalike for c in ctxs if tx.strip()]
     outs = runner.pmap(_e2e_src, [j[0] for j in jobs])
     for (src, tx), o in zip(jobs, outs):
         chk.traces += 1
